@@ -96,7 +96,8 @@ def gen_value(rng, depth=0):
     if r < 0.45:
         return [Tok(rng.choice(["1.5", "-1", "+2.5f", ".5", "3f", "-0.25", "١٢"]))]
     if r < 0.6:
-        return [Tok('"' + rng.choice(["", "hello", "a b", "é 日本", "// not a comment", "/* x */", "x;y"]) + '"')]
+        return [Tok('"' + rng.choice(["", "hello", "a b", "é 日本", "// not a comment", "/* x */", "x;y", "\\", "C:\\temp\\", "a\\b",
+                                     "it's", "{1, 2}", "\\n", "tab\there\\"]) + '"')]
     if r < 0.7:
         return [Tok(rng.choice(["true", "false"]))]
     if r < 0.78:
